@@ -43,6 +43,25 @@ theorem set_semantics (cmp : α → α → Ordering) (hc : Consistent cmp) (ops 
 example : toList (run compare demo).root = [1, 3, 4, 8, 9] ∧ refKeys compare demo = [1, 3, 4, 8, 9] := by
   decide
 
+/-- Search-tree level, independent of balance: on *any* tree whose in-order list is strictly
+    ascending (reachable or not, level rules or not) `insert_sub` / `remove_sub` act on the
+    in-order list as sorted-insert / erase, and keep it strictly ascending. -/
+theorem bst_insert_remove (cmp : α → α → Ordering) (hc : Consistent cmp) (t : T α) (k : α)
+    (hs : (toList t).Pairwise (fun a b => cmp a b = .lt)) :
+    toList (ins cmp t k) = specInsert cmp k (toList t) ∧
+    toList (del cmp t k) = specErase cmp k (toList t) ∧
+    (toList (ins cmp t k)).Pairwise (fun a b => cmp a b = .lt) ∧
+    (toList (del cmp t k)).Pairwise (fun a b => cmp a b = .lt) := by
+  have h1 := toList_ins hc t k hs
+  have h2 := toList_del hc t k hs
+  refine ⟨h1, h2, ?_, ?_⟩
+  · rw [h1]; exact sorted_specInsert hc k _ hs
+  · rw [h2]; exact sorted_specErase hc k _ hs
+
+/-- (an unbalanced, level-rule-violating but ordered tree) -/
+example : toList (ins compare (node (node nil 1 7 nil) (2 : Int) 7 (node nil 9 7 nil)) 5) = [1, 2, 5, 9] ∧
+    toList (del compare (node (node nil 1 7 nil) (2 : Int) 7 (node nil 9 7 nil)) 2) = [1, 9] := by decide
+
 /-- Membership after one more operation, spelled out: insert adds exactly its key, remove
     deletes exactly its key, destroy empties, everything else changes nothing. -/
 theorem contents_step (cmp : α → α → Ordering) (hc : Consistent cmp) (ops : List (Op α))
@@ -167,7 +186,9 @@ example : aa (run compare demo).root = true := aa_reachable compare int_compare_
 theorem height_le_of_aa (t : T α) (h : aa t = true) : height t ≤ 2 * Nat.log2 (size t + 1) :=
   height_le_two_log t h
 
-example : height (run compare demo).root = 3 ∧ size (run compare demo).root = 5 := by decide
+example : height (run compare demo).root = 3 ∧ size (run compare demo).root = 5 ∧
+    height (run compare demo).root ≤ 2 * Nat.log2 (size (run compare demo).root + 1) :=
+  ⟨by decide, by decide, height_le_of_aa _ (by decide)⟩
 
 /-- After every operation the height is at most `2·log2(n+1)`, `n` = number of keys = count. -/
 theorem height_bound (cmp : α → α → Ordering) (hc : Consistent cmp) (ops : List (Op α)) :
